@@ -1206,3 +1206,706 @@ func c20RequestedOnly(p *load.Program, r *oblig.Report, rule string) {
 	sort.Strings(bad)
 	r.Check(n >= 1 && len(bad) == 0, rule, "kafka.(*Client).ListOffsets files a partition of the response only under an entry prepared from the request", p.Pos(fn.Pos()), "partition, requested := partitionOffsets[key]; if !requested { continue }", strings.Join(bad, "; "))
 }
+
+// c20ArrayIndex: a decoder that collects wire bytes into a fixed-size scratch array must not index past it. Decided
+// (only the provable cases, so that nothing is reported on a bound the analysis cannot see): an index into a fixed-size
+// array by a loop counter that runs from a constant up to a constant bound K needs K <= the array's length.
+func c20ArrayIndex(p *load.Program, r *oblig.Report) {
+	const rule = "C20.R6 loop-indexed scratch arrays of the decoder are large enough"
+	n := 0
+	var bad []string
+	for _, fn := range p.EveryModuleFunction() {
+		top := fn
+		for top.Parent() != nil {
+			top = top.Parent()
+		}
+		if top.Pkg == nil || !strings.HasPrefix(top.Pkg.Pkg.Path(), protoPath) {
+			continue
+		}
+		for _, b := range fn.Blocks {
+			for _, ins := range b.Instrs {
+				ia, ok := ins.(*ssa.IndexAddr)
+				if !ok {
+					continue
+				}
+				pt, isPtr := ia.X.Type().Underlying().(*types.Pointer)
+				if !isPtr {
+					continue
+				}
+				arr, isArr := pt.Elem().Underlying().(*types.Array)
+				if !isArr {
+					continue
+				}
+				ph, isPhi := ia.Index.(*ssa.Phi)
+				if !isPhi {
+					continue
+				}
+				n++
+				// the loop test on the counter
+				for _, ref := range *ph.Referrers() {
+					bo, isBo := ref.(*ssa.BinOp)
+					if !isBo || bo.X != ssa.Value(ph) {
+						continue
+					}
+					k, isK := an.ConstInt(bo.Y)
+					if !isK {
+						// a bound that is a constant on some path (n := 11; if n > remain { n = remain })
+						if bph, isB := bo.Y.(*ssa.Phi); isB {
+							for _, e := range bph.Edges {
+								if c, isC := an.ConstInt(e); isC && (!isK || c > k) {
+									k, isK = c, true
+								}
+							}
+						}
+					}
+					if !isK {
+						continue
+					}
+					limit := int64(-1)
+					switch bo.Op {
+					case token.LSS:
+						limit = k
+					case token.LEQ:
+						limit = k + 1
+					}
+					if limit > arr.Len() {
+						bad = append(bad, fmt.Sprintf("%s indexes an array of %d elements with a counter that runs up to %d at %s", an.ShortFunc(fn), arr.Len(), limit-1, p.Pos(ia.Pos())))
+					}
+				}
+			}
+		}
+	}
+	sort.Strings(bad)
+	r.Check(len(bad) == 0, rule, "package protocol: no fixed-size array is indexed past its end by a constant-bounded loop counter", "protocol/", "for i := 0; i < K; i++ { b[i] … } with K <= len(b)", strings.Join(bad, "; "), fmt.Sprintf("%d loop-indexed fixed-size arrays examined", n))
+}
+
+// c01MakeError: a response entry reports success exactly with error code 0; every other code, the negative
+// UNKNOWN_SERVER_ERROR (-1) included, is an error. makeError is where the produce (and every other Client) response
+// turns a code into the error the Writer acts on.
+func c01MakeError(p *load.Program, r *oblig.Report, rule string) {
+	fn := p.Func("", "makeError")
+	if fn == nil {
+		r.Lost(rule, "kafka.makeError")
+		return
+	}
+	n := 0
+	var bad []string
+	for _, b := range an.Blocks(fn) {
+		iff, ci := an.IfCond(b)
+		if iff == nil || ci == nil {
+			continue
+		}
+		for _, pr := range [][2]ssa.Value{{ci.X, ci.Y}, {ci.Y, ci.X}} {
+			if stripConvs(pr[0]) != ssa.Value(fn.Params[0]) {
+				continue
+			}
+			n++
+			k, isK := an.ConstInt(pr[1])
+			if !isK || k != 0 || (ci.Op != token.EQL && ci.Op != token.NEQ) {
+				bad = append(bad, "the code is tested with "+clean(an.ShapeCanon(iff.Cond)))
+			}
+		}
+	}
+	// the nil return sits on the code == 0 edge only
+	an.EachInstr(fn, func(ins ssa.Instruction) {
+		ret, ok := ins.(*ssa.Return)
+		if !ok || ret.Parent() != fn || !an.IsNilConst(an.RetVal(ret, 0)) {
+			return
+		}
+		okEdge := false
+		for d, child := ret.Block().Idom(), ret.Block(); d != nil; d, child = d.Idom(), d {
+			_, ci := an.IfCond(d)
+			if e := ci.Edge(token.EQL); e >= 0 && edgeControls(d, e, child) {
+				okEdge = true
+			}
+		}
+		if !okEdge {
+			bad = append(bad, "nil is returned at "+p.Pos(ret.Pos())+" outside the code == 0 edge")
+		}
+	})
+	sort.Strings(bad)
+	r.Check(n == 1 && len(bad) == 0, rule, "kafka.makeError answers nil for code 0 and for nothing else", p.Pos(fn.Pos()), "if code == 0 { return nil }", strings.Join(bad, "; "))
+}
+
+// c02RunFuncAlways: the callbacks handed to readMessage are what store the key and the value of the message being
+// built; they are called for a null key or value as well (length -1), which is how a field left over from the record
+// decoded before is replaced by nil.
+func c02RunFuncAlways(p *load.Program, r *oblig.Report) {
+	const rule = "C02.R12 the key and value callbacks run for every record, null fields included"
+	fn := p.Func("", "(*messageSetReader).runFunc")
+	if fn == nil {
+		r.Lost(rule, "kafka.(*messageSetReader).runFunc")
+		return
+	}
+	// after the length was read successfully, every path calls the callback
+	var lenCall *ssa.Call
+	an.EachInstr(fn, func(ins ssa.Instruction) {
+		if c, ok := ins.(*ssa.Call); ok && c.Call.StaticCallee() != nil && strings.Contains(strings.ToLower(an.RefFuncName(c.Call.StaticCallee())), "varint") {
+			lenCall = c
+		}
+	})
+	if lenCall == nil || len(fn.Params) < 2 {
+		r.Bad(rule, "messageSetReader.runFunc → length of the field", p.Pos(fn.Pos()), "a varint read", "not found")
+		return
+	}
+	cb := fn.Params[len(fn.Params)-1]
+	edge := func(from *ssa.BasicBlock, si int) bool {
+		_, ci := an.IfCond(from)
+		if e := ci.Edge(token.NEQ); e >= 0 && an.IsNilConst(ci.Y) && isErrorType(ci.X.Type()) {
+			return si != e
+		}
+		return true
+	}
+	ok, miss := an.MustPass(fn, an.PointOf(lenCall), func(i ssa.Instruction) bool {
+		c, isC := i.(*ssa.Call)
+		return isC && c.Call.Value == ssa.Value(cb)
+	}, edge)
+	found := ""
+	if !ok && miss != nil {
+		found = "the exit at " + p.Pos(miss.Pos()) + " is reached without calling the callback"
+	}
+	r.Check(ok, rule, "kafka.(*messageSetReader).runFunc calls the callback on every path on which the length was read", p.Pos(fn.Pos()), "r.remain, err = rbFunc(r.reader, r.remain, int(length)) unconditionally", found)
+}
+
+// c03StartOffsetOnMiss: a partition starts at the group's committed offset; StartOffset applies only when the
+// coordinator has none for it, which is what the miss of the lookup says — not the value 0, a legitimate commit.
+func c03StartOffsetOnMiss(p *load.Program, r *oblig.Report) {
+	const rule = "C03.R15 StartOffset replaces a missing commit only, never a committed value"
+	fn := p.Func("", "(*ConsumerGroup).makeAssignments")
+	if fn == nil {
+		r.Lost(rule, "kafka.(*ConsumerGroup).makeAssignments")
+		return
+	}
+	n := 0
+	var bad []string
+	an.EachInstr(fn, func(ins ssa.Instruction) {
+		lk, ok := ins.(*ssa.Lookup)
+		if !ok {
+			return
+		}
+		mt, isMap := lk.X.Type().Underlying().(*types.Map)
+		if !isMap {
+			return
+		}
+		if bt, isB := mt.Elem().Underlying().(*types.Basic); !isB || bt.Kind() != types.Int64 {
+			return // only the lookup of the committed offset itself
+		}
+		n++
+		if !lk.CommaOk {
+			bad = append(bad, "the lookup at "+p.Pos(lk.Pos())+" cannot tell a missing entry from the value 0")
+		}
+	})
+	for _, b := range an.Blocks(fn) {
+		iff, ci := an.IfCond(b)
+		if iff == nil || ci == nil {
+			continue
+		}
+		for _, pr := range [][2]ssa.Value{{ci.X, ci.Y}, {ci.Y, ci.X}} {
+			if _, isK := an.ConstInt(pr[1]); !isK {
+				continue
+			}
+			if bt, isB := pr[0].Type().Underlying().(*types.Basic); isB && bt.Kind() == types.Int64 {
+				bad = append(bad, "an offset is compared with a constant: "+clean(an.ShapeCanon(iff.Cond)))
+			}
+		}
+	}
+	sort.Strings(bad)
+	r.Check(n >= 1 && len(bad) == 0, rule, "ConsumerGroup.makeAssignments falls back to StartOffset on the miss of the offset lookup", p.Pos(fn.Pos()), "offset, ok = partitionOffsets[int(partition)]; if !ok { offset = cg.config.StartOffset }", strings.Join(bad, "; "))
+}
+
+// c04RecordVersionBoundary: Produce v3 is the first version that requires record batches (message format 2); v0–v2
+// carry message sets. Decided by evaluating the version test of produce.(*Request).Prepare for every version.
+func c04RecordVersionBoundary(p *load.Program, r *oblig.Report, rule string) {
+	fn := p.Func("protocol/produce", "(*Request).Prepare")
+	if fn == nil {
+		r.Lost(rule, "produce.(*Request).Prepare")
+		return
+	}
+	param := fn.Params[len(fn.Params)-1]
+	// the φ (or constant) that is the record version: a value of type int8 with constant edges 1 and 2
+	var ph *ssa.Phi
+	an.EachInstr(fn, func(ins ssa.Instruction) {
+		x, ok := ins.(*ssa.Phi)
+		if !ok || len(x.Edges) != 2 {
+			return
+		}
+		a, okA := an.ConstInt(x.Edges[0])
+		b, okB := an.ConstInt(x.Edges[1])
+		if okA && okB && ((a == 1 && b == 2) || (a == 2 && b == 1)) {
+			ph = x
+		}
+	})
+	if ph == nil {
+		r.Bad(rule, "produce.(*Request).Prepare picks message format 1 below Produce v3 and format 2 from v3 on", p.Pos(fn.Pos()), "φ{1, 2} selected by the API version", "no such selection found")
+		return
+	}
+	// the controlling test
+	var table []string
+	okAll := false
+	d := ph.Block().Idom()
+	for ; d != nil; d = d.Idom() {
+		_, ci := an.IfCond(d)
+		if ci == nil {
+			continue
+		}
+		var k int64
+		var op token.Token
+		switch {
+		case stripConvs(ci.X) == ssa.Value(param):
+			kk, isK := an.ConstInt(ci.Y)
+			if !isK {
+				continue
+			}
+			k, op = kk, ci.Op
+		case stripConvs(ci.Y) == ssa.Value(param):
+			kk, isK := an.ConstInt(ci.X)
+			if !isK {
+				continue
+			}
+			k, op = kk, flipOp(ci.Op)
+		default:
+			continue
+		}
+		okAll = true
+		for v := int64(0); v <= 9; v++ {
+			holds := false
+			switch op {
+			case token.LSS:
+				holds = v < k
+			case token.LEQ:
+				holds = v <= k
+			case token.GTR:
+				holds = v > k
+			case token.GEQ:
+				holds = v >= k
+			case token.EQL:
+				holds = v == k
+			case token.NEQ:
+				holds = v != k
+			}
+			if ci.Neg {
+				holds = !holds
+			}
+			// which edge of the φ does the successor taken lead to?
+			succ := d.Succs[1]
+			if holds {
+				succ = d.Succs[0]
+			}
+			got := int64(-1)
+			for i, pred := range ph.Block().Preds {
+				if pred == succ || succ.Dominates(pred) || (succ == ph.Block() && pred == d) {
+					if c, isC := an.ConstInt(ph.Edges[i]); isC {
+						got = c
+					}
+				}
+			}
+			want := int64(2)
+			if v < 3 {
+				want = 1
+			}
+			table = append(table, fmt.Sprintf("v%d→%d", v, got))
+			if got != want {
+				okAll = false
+			}
+		}
+		break
+	}
+	r.Check(okAll, rule, "produce.(*Request).Prepare picks message format 1 below Produce v3 and format 2 from v3 on", p.Pos(fn.Pos()), "v0→1 v1→1 v2→1 v3→2 … v9→2", strings.Join(table, " "))
+}
+
+func flipOp(op token.Token) token.Token {
+	switch op {
+	case token.LSS:
+		return token.GTR
+	case token.LEQ:
+		return token.GEQ
+	case token.GTR:
+		return token.LSS
+	case token.GEQ:
+		return token.LEQ
+	}
+	return op
+}
+
+// c12LeaderSiblings: produce and fetch pick their broker the same way — every partition's leader must exist and all
+// partitions of the request must share it ("mismatching leaders" otherwise, which makes the transport split or refuse
+// the request). The two functions are siblings: their tests must be the same tests.
+func c12LeaderSiblings(p *load.Program, r *oblig.Report) {
+	const rule = "C12.R14 produce and fetch requests agree on how the partition leader is found"
+	a, b := p.Func("protocol/produce", "(*Request).Broker"), p.Func("protocol/fetch", "(*Request).Broker")
+	if a == nil || b == nil {
+		r.Lost(rule, "produce.(*Request).Broker / fetch.(*Request).Broker")
+		return
+	}
+	conds := func(fn *ssa.Function) []string {
+		var out []string
+		for _, blk := range an.Blocks(fn) {
+			if iff, _ := an.IfCond(blk); iff != nil {
+				s := clean(an.ShapeCanon(iff.Cond))
+				if strings.Contains(s, "idx(") && !strings.Contains(s, ".ID") && !strings.Contains(s, "#1") {
+					continue // loop tests
+				}
+				out = append(out, s)
+			}
+		}
+		sort.Strings(out)
+		return out
+	}
+	ca, cb := conds(a), conds(b)
+	hasMismatch := false
+	for _, c := range cb {
+		if strings.Count(c, ".ID") == 2 && strings.Contains(c, "!=") {
+			hasMismatch = true
+		}
+	}
+	r.Check(strings.Join(ca, " ; ") == strings.Join(cb, " ; ") && hasMismatch, rule, "fetch.(*Request).Broker tests what produce.(*Request).Broker tests (leader exists; same leader as the partitions seen so far)", p.Pos(b.Pos()),
+		strings.Join(ca, " ; "), strings.Join(cb, " ; "))
+}
+
+// c12ControllerFromMetadata: the controller the layout names is the one the metadata response names; a layout that
+// substitutes another broker sends topic creation to a broker that is not the controller.
+func c12ControllerFromMetadata(p *load.Program, r *oblig.Report) {
+	const rule = "C12.R15 the cluster layout takes its controller from the metadata response"
+	fn := p.Func("", "makeLayout")
+	if fn == nil {
+		r.Lost(rule, "kafka.makeLayout")
+		return
+	}
+	n := 0
+	var bad []string
+	an.EachInstr(fn, func(ins ssa.Instruction) {
+		st, ok := ins.(*ssa.Store)
+		if !ok {
+			return
+		}
+		fa, isFa := st.Addr.(*ssa.FieldAddr)
+		if !isFa || an.FieldName(fa.X.Type(), fa.Field) != "Controller" {
+			return
+		}
+		n++
+		if s := clean(an.Shape(st.Val)); !strings.HasSuffix(s, ".ControllerID") || strings.Contains(s, "φ") {
+			bad = append(bad, "Controller = "+s+" at "+p.Pos(st.Pos()))
+		}
+	})
+	sort.Strings(bad)
+	r.Check(n == 1 && len(bad) == 0, rule, "makeLayout → Cluster.Controller is metadataResponse.ControllerID, written once", p.Pos(fn.Pos()), "Controller: metadataResponse.ControllerID", fmt.Sprintf("%d writes; %s", n, strings.Join(bad, "; ")))
+}
+
+// c05RelativeInnerOffsets: the messages inside a compressed format-1 wrapper carry offsets relative to the wrapper
+// (0, 1, 2, …: their position in the set), whatever Offset field the caller's Message values hold.
+func c05RelativeInnerOffsets(p *load.Program, r *oblig.Report) {
+	const rule = "C05.R16 inner messages of a compressed message set carry their position as offset"
+	fn := p.Func("", "compressMessageSet")
+	if fn == nil {
+		r.Lost(rule, "kafka.compressMessageSet")
+		return
+	}
+	n := 0
+	var bad []string
+	an.EachInstr(fn, func(ins ssa.Instruction) {
+		c, ok := ins.(*ssa.Call)
+		if !ok || c.Call.StaticCallee() == nil || an.RefFuncName(c.Call.StaticCallee()) != "writeMessage" {
+			return
+		}
+		n++
+		off := stripConvs(c.Call.Args[1])
+		okOff := false
+		switch x := off.(type) {
+		case *ssa.Phi:
+			okOff = true // a loop counter
+		case *ssa.Extract:
+			if _, isNext := x.Tuple.(*ssa.Next); isNext && x.Index == 1 {
+				okOff = true // the key of a range
+			}
+		case *ssa.BinOp:
+			_, isPhi := x.X.(*ssa.Phi)
+			okOff = isPhi
+		}
+		if !okOff {
+			bad = append(bad, "writeMessage is given the offset "+clean(an.Shape(c.Call.Args[1]))+" at "+p.Pos(c.Pos()))
+		}
+	})
+	sort.Strings(bad)
+	r.Check(n >= 1 && len(bad) == 0, rule, "compressMessageSet → writeMessage(int64(position in the set), …)", p.Pos(fn.Pos()), "for offset, msg := range msgs { wb.writeMessage(int64(offset), …) }", strings.Join(bad, "; "))
+}
+
+// c06FreshBytes: what readNewBytes hands out outlives the operation that read it (group assignments, SASL data, keys
+// and values): it must own its storage. A slice of the connection's read buffer is overwritten by the next response.
+func c06FreshBytes(p *load.Program, r *oblig.Report) {
+	const rule = "C06.R10 bytes decoded from a response do not alias the connection's read buffer"
+	fn := p.Func("", "readNewBytes")
+	if fn == nil {
+		r.Lost(rule, "kafka.readNewBytes")
+		return
+	}
+	n := 0
+	var bad []string
+	an.EachInstr(fn, func(ins ssa.Instruction) {
+		ret, ok := ins.(*ssa.Return)
+		if !ok || ret.Parent() != fn {
+			return
+		}
+		n++
+		seen := map[ssa.Value]bool{}
+		var chk func(v ssa.Value)
+		chk = func(v ssa.Value) {
+			if seen[v] {
+				return
+			}
+			seen[v] = true
+			switch x := v.(type) {
+			case *ssa.Phi:
+				for _, e := range x.Edges {
+					chk(e)
+				}
+			case *ssa.Slice:
+				chk(x.X)
+			case *ssa.MakeSlice:
+			case *ssa.Const:
+			case *ssa.UnOp:
+				if a, isA := x.X.(*ssa.Alloc); isA && x.Op == token.MUL {
+					for _, ref := range *a.Referrers() {
+						if st, isSt := ref.(*ssa.Store); isSt && st.Addr == ssa.Value(a) {
+							chk(st.Val)
+						}
+					}
+					return
+				}
+				bad = append(bad, "returns "+clean(an.Shape(v)))
+			default:
+				bad = append(bad, "returns "+clean(an.Shape(v)))
+			}
+		}
+		chk(an.RetVal(ret, 0))
+	})
+	sort.Strings(bad)
+	r.Check(n >= 1 && len(bad) == 0, rule, "kafka.readNewBytes returns nil or (a slice of) bytes it allocated", p.Pos(fn.Pos()), "b = make([]byte, n); io.ReadFull(r, b)", strings.Join(bad, "; "))
+}
+
+// c11ApiVersionsKeepsConn: an error code reported in a completely read ApiVersions response is a broker error: the
+// connection stays usable. Only a failure to read the response closes it. Decided: every Close in ApiVersions is
+// guarded by the error of the response reader itself, not by a value that may also hold Error(errorCode).
+func c11ApiVersionsKeepsConn(p *load.Program, r *oblig.Report) {
+	const rule = "C11.R16 a broker error in the ApiVersions response keeps the connection"
+	fn := p.Func("", "(*Conn).ApiVersions")
+	if fn == nil {
+		r.Lost(rule, "kafka.(*Conn).ApiVersions")
+		return
+	}
+	n := 0
+	var bad []string
+	an.EachInstr(fn, func(ins ssa.Instruction) {
+		c, ok := ins.(*ssa.Call)
+		if !ok || !isConnClose(&c.Call) {
+			return
+		}
+		n++
+		okG := false
+		for d, child := c.Block().Idom(), c.Block(); d != nil; d, child = d.Idom(), d {
+			_, ci := an.IfCond(d)
+			e := ci.Edge(token.NEQ)
+			if e < 0 || !an.IsNilConst(ci.Y) || !edgeControls(d, e, child) {
+				continue
+			}
+			for _, v := range []ssa.Value{an.Unwrap(ci.X), an.Unwrap(an.CellValueAt(ci.X))} {
+				if ex, isEx := v.(*ssa.Extract); isEx {
+					if call, isC := ex.Tuple.(*ssa.Call); isC && call.Call.StaticCallee() != nil && an.RefFuncName(call.Call.StaticCallee()) == "readApiVersionsResponse" {
+						okG = true
+					}
+				}
+			}
+		}
+		if !okG {
+			bad = append(bad, "the Close at "+p.Pos(c.Pos())+" is not limited to a failed read of the response")
+		}
+	})
+	sort.Strings(bad)
+	r.Check(n >= 1 && len(bad) == 0, rule, "(*Conn).ApiVersions closes the connection only when reading the response failed", p.Pos(fn.Pos()), "errorCode, r, err := c.readApiVersionsResponse(size); if err != nil { c.conn.Close(); … }; if errorCode != 0 { return r, Error(errorCode) }", strings.Join(bad, "; "))
+}
+
+// c13CacheLength: loadCachedPartitions(n) must hand out a list of exactly n partitions for every n. When the cached
+// list is too short it is rebuilt: the new length must be derived from n (and be at least n), not from the length of
+// the list being replaced.
+func c13CacheLength(p *load.Program, r *oblig.Report) {
+	const rule = "C13.R8 the partition list offered to a balancer has the requested length"
+	fn := p.Func("", "loadCachedPartitions")
+	if fn == nil {
+		r.Lost(rule, "kafka.loadCachedPartitions")
+		return
+	}
+	n := 0
+	var bad []string
+	an.EachInstr(fn, func(ins ssa.Instruction) {
+		mk, ok := ins.(*ssa.MakeSlice)
+		if !ok {
+			return
+		}
+		n++
+		// every leaf of the length expression that is not a constant is the parameter
+		seen := map[ssa.Value]bool{}
+		fromParam, other := false, ""
+		var walk func(v ssa.Value)
+		walk = func(v ssa.Value) {
+			if seen[v] {
+				return
+			}
+			seen[v] = true
+			switch x := v.(type) {
+			case *ssa.Const:
+			case *ssa.Parameter:
+				fromParam = true
+			case *ssa.BinOp:
+				walk(x.X)
+				walk(x.Y)
+			case *ssa.Convert:
+				walk(x.X)
+			case *ssa.Phi:
+				for _, e := range x.Edges {
+					walk(e)
+				}
+			default:
+				other = clean(an.Shape(v))
+			}
+		}
+		walk(mk.Len)
+		if !fromParam || other != "" {
+			bad = append(bad, fmt.Sprintf("the list is rebuilt with length %s at %s", clean(an.Shape(mk.Len)), p.Pos(mk.Pos())))
+		}
+	})
+	sort.Strings(bad)
+	r.Check(n == 1 && len(bad) == 0, rule, "loadCachedPartitions rebuilds the list with a length computed from the requested count only", p.Pos(fn.Pos()), "n := ((numPartitions / alignment) + 1) * alignment; partitions = make([]int, n)", strings.Join(bad, "; "))
+}
+
+// c14RawRackKeys: RackAffinity matches the rack a member announces (its UserData) with the rack of the partition
+// leaders; the two come from different places (client configuration, broker metadata) and are compared as map keys.
+// Decided: both keys are the raw strings — normalising one side only makes equal racks differ.
+func c14RawRackKeys(p *load.Program, r *oblig.Report) {
+	const rule = "C14.R10 member racks and leader racks are matched as given"
+	fn := p.Func("", "(*RackAffinityGroupBalancer).assignTopic")
+	if fn == nil {
+		r.Lost(rule, "kafka.(*RackAffinityGroupBalancer).assignTopic")
+		return
+	}
+	n := 0
+	var bad []string
+	an.EachInstr(fn, func(ins ssa.Instruction) {
+		mu, ok := ins.(*ssa.MapUpdate)
+		if !ok {
+			return
+		}
+		mt, isMap := mu.Map.Type().Underlying().(*types.Map)
+		if !isMap {
+			return
+		}
+		if bt, isB := mt.Key().Underlying().(*types.Basic); !isB || bt.Kind() != types.String {
+			return
+		}
+		key := clean(an.Shape(mu.Key))
+		if !strings.Contains(key, "UserData") && !strings.Contains(key, ".Rack") {
+			return
+		}
+		n++
+		if _, isCall := stripConvs(mu.Key).(*ssa.Call); isCall {
+			bad = append(bad, "the key "+key+" at "+p.Pos(mu.Pos())+" is computed by a call")
+		}
+	})
+	sort.Strings(bad)
+	r.Check(n >= 2 && len(bad) == 0, rule, "assignTopic keys its per-rack tables with string(member.UserData) and part.Leader.Rack themselves", p.Pos(fn.Pos()), "zone := string(member.UserData); zone := part.Leader.Rack", strings.Join(bad, "; "))
+}
+
+// c17DiscardReportsShortStream: skipping bytes of a response must notice that the stream ended: the reader's own
+// Discard reports it, io.Copy does not (it treats EOF as success). Decided: (*decoder).discard hands the error of the
+// reader's Discard to setError.
+func c17DiscardReportsShortStream(p *load.Program, r *oblig.Report) {
+	const rule = "C17.R11 skipped bytes are missed when the connection was cut"
+	fn := p.Func("protocol", "(*decoder).discard")
+	if fn == nil {
+		r.Lost(rule, "protocol.(*decoder).discard")
+		return
+	}
+	okD := false
+	an.EachInstr(fn, func(ins ssa.Instruction) {
+		c, ok := ins.(*ssa.Call)
+		if !ok || !c.Call.IsInvoke() || c.Call.Method.Name() != "Discard" {
+			return
+		}
+		// its error reaches setError
+		for _, ref := range *c.Referrers() {
+			ex, isEx := ref.(*ssa.Extract)
+			if !isEx || ex.Index != 1 {
+				continue
+			}
+			seen := map[ssa.Value]bool{}
+			var reach func(v ssa.Value) bool
+			reach = func(v ssa.Value) bool {
+				if seen[v] || v.Referrers() == nil {
+					return false
+				}
+				seen[v] = true
+				for _, u := range *v.Referrers() {
+					switch x := u.(type) {
+					case *ssa.Phi:
+						if reach(x) {
+							return true
+						}
+					case *ssa.Call:
+						if x.Call.StaticCallee() != nil && an.RefFuncName(x.Call.StaticCallee()) == "setError" {
+							return true
+						}
+					}
+				}
+				return false
+			}
+			if reach(ex) {
+				okD = true
+			}
+		}
+	})
+	r.Check(okD, rule, "protocol.(*decoder).discard uses the reader's Discard and reports its error", p.Pos(fn.Pos()), "if r, _ := d.reader.(discarder); r != nil { n, err = r.Discard(n); … }; d.setError(err)", "no Discard of the underlying reader whose error reaches setError")
+}
+
+// c19SplitAlwaysMerged: what a Splitter request is split into is answered through its merger, one part or many:
+// the merger is where ListOffsets restores the requested timestamps (brokers answer -1/-2 placeholders with -1).
+// Decided: in connPool.roundTrip the messages of Split are used for nothing but the fan-out handed to join.
+func c19SplitAlwaysMerged(p *load.Program, r *oblig.Report, rule string) {
+	fn := p.Func("", "(*connPool).roundTrip")
+	if fn == nil {
+		r.Lost(rule, "kafka.(*connPool).roundTrip")
+		return
+	}
+	n := 0
+	var bad []string
+	an.EachInstr(fn, func(ins ssa.Instruction) {
+		c, ok := ins.(*ssa.Call)
+		if !ok || !c.Call.IsInvoke() || c.Call.Method.Name() != "Split" {
+			return
+		}
+		n++
+		for _, ref := range *c.Referrers() {
+			ex, isEx := ref.(*ssa.Extract)
+			if !isEx || ex.Index != 0 {
+				continue
+			}
+			for _, u := range *ex.Referrers() {
+				switch x := u.(type) {
+				case *ssa.IndexAddr:
+					if _, isK := an.ConstInt(x.Index); isK {
+						bad = append(bad, "one of the messages is picked by a constant index at "+p.Pos(x.Pos()))
+					}
+				case *ssa.Index:
+					if _, isK := an.ConstInt(x.Index); isK {
+						bad = append(bad, "one of the messages is picked by a constant index at "+p.Pos(x.Pos()))
+					}
+				}
+			}
+		}
+	})
+	joins := 0
+	an.EachInstr(fn, func(ins ssa.Instruction) {
+		if c, ok := ins.(*ssa.Call); ok && c.Call.StaticCallee() != nil && an.RefFuncName(c.Call.StaticCallee()) == "join" {
+			joins++
+		}
+	})
+	sort.Strings(bad)
+	r.Check(n == 1 && joins >= 1 && len(bad) == 0, rule, "connPool.roundTrip answers a split request through join(promises, messages, merger), whatever the number of parts", p.Pos(fn.Pos()), "for i, m := range messages { promises[i] = p.sendRequest(ctx, m, state) }; response = join(promises, messages, merger)", strings.Join(bad, "; "))
+}
